@@ -198,6 +198,38 @@ def run_tlc(module: str, cfg: str | None = None, *, workdir: Path, workers: int 
     return TlcResult(out, code, time.time() - t0)
 
 
+def run_apalache(module: str, *, workdir: Path, inv: str = 'Inv', length: int = 0, timeout: int = 300) -> dict[str, Any]:
+    """Unbounded (SMT) check of a state invariant with Apalache on SPEC/<module>.tla (a wrapper module with typed
+    VARIABLES whose Init draws the inputs from Nat / Int).  Returns {'outcome': 'NoError' | 'Error' | 'unavailable', ...}.
+    'unavailable' (tool missing, time-out, crash) is not a verdict and not a failure: TLC's small scope stays the
+    primary design-level check; a reported counter-example is a machinery failure like any model-only counter-example."""
+    exe = shutil.which('apalache-mc')
+    if exe is None:
+        return {'outcome': 'unavailable', 'why': 'apalache-mc not on PATH'}
+    src = Path(workdir) / f'apa-{module}'
+    src.mkdir(parents=True, exist_ok=True)
+    for f in SPEC.glob('*.tla'):
+        shutil.copyfile(f, src / f.name)
+    t0 = time.time()
+    try:
+        pr = subprocess.run([exe, 'check', '--init=Init', '--next=Next', f'--inv={inv}', f'--length={length}',
+                             f'--out-dir={src / "out"}', f'{module}.tla'], cwd=src, capture_output=True, text=True, timeout=timeout)
+    except subprocess.TimeoutExpired:
+        return {'outcome': 'unavailable', 'why': f'timeout after {timeout} s'}
+    out = pr.stdout + pr.stderr
+    wall = round(time.time() - t0, 1)
+    if 'The outcome is: NoError' in out:
+        return {'outcome': 'NoError', 'wall_s': wall}
+    if 'The outcome is: Error' in out and 'invariant' in out:
+        return {'outcome': 'Error', 'wall_s': wall, 'tail': out[-1500:]}
+    return {'outcome': 'unavailable', 'why': out[-400:], 'wall_s': wall}
+
+
+def apalache_must_not_refute(res: dict[str, Any], what: str) -> None:
+    if res['outcome'] == 'Error':
+        raise MachineryFailure(f'{what}: Apalache refutes the invariant over unbounded integers (model-only counter-example)\n{res.get("tail", "")}')
+
+
 def tlc_must_pass(res: TlcResult, what: str) -> None:
     """Design-level run must complete without error; anything else is a machinery failure
     (a model-only counter-example is never reported as a violation: DESIGN 2.1)."""
